@@ -16,7 +16,8 @@ def read_only_calls(ctx):
     pages = sample(ctx, m.pages, 4)
     nodes = sample(ctx, m.nodes - set(m.pages), 3)
     absent = absent_lrus(ctx, 3)
-    lrus = pages + nodes + absent
+    under_rules = sorted(l for l in m.pages if any(l.startswith(a) for a in m.flags))[:3]
+    lrus = pages + under_rules + nodes + absent
     if not lrus:
         lrus = [b"s:http|h:com|h:nowhere|"]
     weids = m.weids()
@@ -189,6 +190,19 @@ class _ShimSut(object):
 def run_C14(case):
     from .engine import Ctx, Result, Violation, Foreign, run_sequential
 
+    if case.get("reopen_with_fewer_rules"):
+        # a process restarted with a rules dict that lacks rules flagged in the trie:
+        # a reachable state; queries may fail, they may not write
+        def final(ctx):
+            if ctx.backend != "sim" or not ctx.model.rules_src:
+                return
+            keep = dict(sorted(ctx.model.rules_src.items())[: case["reopen_with_fewer_rules"] - 1])
+            ctx.sut.close()
+            ctx.sut.open(ctx.model.default_src, keep)
+            ctx.probe("reopened_with_fewer_rules_than_flagged")
+            sweep_C14(ctx)
+
+        return run_sequential(case, sweep_C14, prop="C14", final=final)
     if not case.get("crash"):
         return run_sequential(case, sweep_C14, prop="C14")
     import hashlib
